@@ -85,6 +85,8 @@ impl Exec for FunctionDeclaration {
             return_type: self.return_type.clone(),
         }
         .into();
+        #[cfg(feature = "verif")]
+        crate::verif::function_created(&function);
         interpreter.insert(self.ident.clone(), function.clone().into());
         Ok(function.into())
     }
